@@ -43,6 +43,9 @@ var composeTemplates = []cTmpl{
 	{"reverse(X)", 2}, {"sort(X)", 2}, {"sort_by(X, &Y)", 2}, {"sort_by(X, &a)", 2}, {"sort_by(X, &@)", 2}, {"split(X, Y)", 2}, {"split(X, Y, `1`)", 2}, {"split(X, '')", 2}, {"starts_with(X, Y)", 2}, {"sum(X)", 2},
 	{"to_array(X)", 2}, {"to_number(X)", 2}, {"to_string(X)", 2}, {"trim(X)", 2}, {"trim(X, Y)", 2}, {"trim_left(X)", 2}, {"trim_left(X, Y)", 2}, {"trim_right(X)", 2}, {"trim_right(X, Y)", 2}, {"type(X)", 2}, {"upper(X)", 2}, {"values(X)", 2},
 	{"zip(X, Y)", 2}, {"zip(X)", 2}, {"X.length(@)", 2}, {"X[*].length(@)", 2}, {"X[*].type(@)", 2}, {"X.keys(@)", 2}, {"X[?type(@) == 'number']", 2}, {"X[?length(@) > `1`]", 2}, {"X[?contains(@, Y)]", 2}, {"X | length(@)", 2}, {"X | sort(@)", 2},
+	// a function of the element as the right-hand side of every projection kind (the function sees null elements; only null results are dropped)
+	{"X[].type(@)", 2}, {"X[].to_string(@)", 2}, {"X[].not_null(@, 'd')", 2}, {"X.*.type(@)", 2}, {"X.*.not_null(@, Y)", 2}, {"X[?!@].type(@)", 2}, {"X[?@ == `null`].type(@)", 2}, {"X[1:].type(@)", 2}, {"X[::-1].not_null(@, 'd')", 2},
+	{"X[*].not_null(@, Y)", 2}, {"X[*].to_string(@)", 2}, {"X[*][].type(@)", 2}, {"X[].not_null(a, 'd')", 2}, {"X | [].type(@)", 2}, {"X[*].[type(@)]", 2}, {"X[].a.type(@)", 2}, {"X[*].a[].type(@)", 2},
 	{"length(X) == Y", 2}, {"sort_by(X, &Y)[0]", 2}, {"sort_by(X, &a)[-1]", 2}, {"sort(X)[0]", 2}, {"reverse(X)[0]", 2}, {"keys(X)[0]", 2}, {"values(X)[*].a", 2}, {"max_by(X, &a).a", 2}, {"to_array(X)[0]", 2}, {"map(&a, X)[0]", 2}, {"not_null(X, Y).a", 2},
 }
 
